@@ -30,8 +30,7 @@ def gen_reacts(rng, nh, curh_known=None):
     for _ in range(rng.choice([1, 1, 1, 2, 2, 3])):
         kind = rng.choice(['load', 'in', 'in', 'out', 'out', 'quit'])
         r = rng.random()
-        if kind in ('load', 'in'):
-            # never K10 on purpose: no switch request while the loop is switching
+        if kind in ('load', 'in') and r < 0.55:
             act = rng.choice([['quit'], ['quitloop', 'default'], ['quitloop', 'current'],
                               ['other']])
         elif r < 0.3:
@@ -47,11 +46,6 @@ def gen_reacts(rng, nh, curh_known=None):
         else:
             act = ['raisesw', rng.randrange(nh), rng.random() < 0.3, rng.random() < 0.3]
         rs.append([kind, act])
-    # a quit_loop performed while the loop is switching would hand a 'quit' reaction
-    # that switches the K10 pattern: never on purpose
-    if any(k in ('load', 'in') and a[0] == 'quitloop' for k, a in rs):
-        rs = [[k, (['quit'] if k == 'quit' and a[0] in ('switch', 'raisesw') else a)]
-              for k, a in rs]
     return rs
 
 
@@ -73,8 +67,8 @@ def gen_case(rng, big=False, reacts=True):
         rs = gen_reacts(rng, nh)
         if rs:
             risky[0] = True
-        if top:
-            rs = [r for r in rs if r[0] == 'load'][:1] if rng.random() < 0.5 else []
+        if top:     # loop.switch from outside: nobody would honour a switch request
+            rs = [r for r in rs if r[0] == 'load' and r[1][0] not in ('switch', 'raisesw')][:1]
         return rs
 
     h0 = rng.randrange(nh)
